@@ -233,11 +233,6 @@ theorem erase_setSlotT : ∀ (l : TSlots α) (k : Nat) (v : Option (TVal α)),
   | x :: r, 0, v => by simp [setSlotT, eraseL_cons, setSlot]
   | x :: r, k + 1, v => by simp [setSlotT, eraseL_cons, setSlot, erase_setSlotT r k v]
 
-/-- the outcome of the value model that corresponds to an optional result of the identity model -/
-def toOut {β : Type} : Option β → Out β
-  | some b => .ok b
-  | none => .typeError
-
 mutual
 theorem erase_nestTV (k : Nat) (dk : TVal α) : ∀ (v : TVal α),
     toOut ((nestTV k dk v).map (fun p => eraseV p.1)) = nestV k (eraseV dk) (eraseV v)
@@ -325,6 +320,220 @@ theorem nestTL_written (k : Nat) (dk : TVal α) (t : Nat) : ∀ (j : Nat) (l l' 
         rcases nestTL_written k dk t j r p.1 p.2 (by rw [hn]) with h' | h'
         · exact Or.inl (by rw [← h.2]; exact h')
         · exact Or.inr ((dictToksL_cons x r w).2 (Or.inr (by rw [← h.2]; exact h')))
+end
+
+/-! ### objects that are passed on are passed on untouched -/
+
+/-- an object of the result is new (identity `≥ c`) -/
+def IsNew (c : Nat) (s : TVal α) : Prop := ∃ t, rootTok s = some t ∧ c ≤ t
+
+theorem subsL_cons (x : Option (TVal α)) (r : TSlots α) (s : TVal α) :
+    s ∈ subsL (x :: r) ↔ (∃ v, x = some v ∧ s ∈ subsV v) ∨ s ∈ subsL r := by
+  cases x <;> simp [subsL]
+
+theorem subsL_replicate_none (n : Nat) (s : TVal α) : s ∉ subsL (List.replicate n (none : Option (TVal α))) := by
+  induction n with
+  | zero => simp [subsL]
+  | succ n ih => simp [List.replicate_succ, subsL, ih]
+
+mutual
+theorem subs_no_leafV : ∀ (v : TVal α) (ts : List Nat) (a : α), TVal.leaf ts a ∉ subsV v
+  | .leaf _ _, _, _ => by simp [subsV]
+  | .dict t l, ts, a => by
+      simp only [subsV, List.mem_cons, not_or]
+      exact ⟨by simp, subs_no_leafL l ts a⟩
+theorem subs_no_leafL : ∀ (l : TSlots α) (ts : List Nat) (a : α), TVal.leaf ts a ∉ subsL l
+  | [], _, _ => by simp [subsL]
+  | none :: r, ts, a => by simp only [subsL]; exact subs_no_leafL r ts a
+  | some v :: r, ts, a => by
+      simp only [subsL, List.mem_append, not_or]
+      exact ⟨subs_no_leafV v ts a, subs_no_leafL r ts a⟩
+end
+
+mutual
+theorem subs_root_memV : ∀ (v : TVal α) (u : Nat) (l : TSlots α), TVal.dict u l ∈ subsV v → u ∈ dictToksV v
+  | .leaf _ _, _, _, h => by simp [subsV] at h
+  | .dict t l', u, l, h => by
+      simp only [subsV, List.mem_cons] at h
+      simp only [dictToksV, List.mem_cons]
+      rcases h with h | h
+      · left; injection h
+      · exact Or.inr (subs_root_memL l' u l h)
+theorem subs_root_memL : ∀ (l' : TSlots α) (u : Nat) (l : TSlots α), TVal.dict u l ∈ subsL l' → u ∈ dictToksL l'
+  | [], _, _, h => by simp [subsL] at h
+  | none :: r, u, l, h => by simp only [subsL] at h; simp only [dictToksL]; exact subs_root_memL r u l h
+  | some v :: r, u, l, h => by
+      simp only [subsL, List.mem_append] at h
+      simp only [dictToksL, List.mem_append]
+      rcases h with h | h
+      · exact Or.inl (subs_root_memV v u l h)
+      · exact Or.inr (subs_root_memL r u l h)
+end
+
+section diff
+variable [DecidableEq α] (truthy : α → Bool)
+
+mutual
+theorem diffTV_intact (lv : Int) : ∀ (v : TVal α) (w : Val α) (c : Nat),
+    ∀ s ∈ subsV (diffTV truthy lv v w c).1, s ∈ subsV v ∨ IsNew c s
+  | .dict t x, .dict y, c => by
+      intro s hs
+      simp only [diffTV] at hs
+      split at hs
+      · simp only [emptyT, subsV, List.mem_cons] at hs
+        rcases hs with hs | hs
+        · exact Or.inr ⟨c, by rw [hs]; rfl, Nat.le_refl _⟩
+        · exact absurd hs (subsL_replicate_none _ _)
+      · split at hs
+        · exact Or.inl hs
+        · simp only [subsV, List.mem_cons] at hs
+          rcases hs with hs | hs
+          · exact Or.inr ⟨c, by rw [hs]; rfl, Nat.le_refl _⟩
+          · rcases diffTL_intact lv x y (c + 1) s hs with h | ⟨u, h1, h2⟩
+            · exact Or.inl (by simp [subsV, h])
+            · exact Or.inr ⟨u, h1, by omega⟩
+  | .dict t x, .leaf b, c => by
+      intro s hs; simp only [diffTV] at hs; exact Or.inl hs
+  | .leaf ts a, w, c => by
+      intro s hs; simp only [diffTV] at hs; exact Or.inl hs
+theorem diffTO_intact (lv : Int) : ∀ (x : Option (TVal α)) (y : Option (Val α)) (c : Nat),
+    ∀ r, (diffTO truthy lv x y c).1 = some r → ∀ s ∈ subsV r, (∃ v, x = some v ∧ s ∈ subsV v) ∨ IsNew c s
+  | none, _, c => by simp [diffTO]
+  | some v, none, c => by
+      intro r hr s hs
+      simp only [diffTO, Option.some.injEq] at hr
+      subst hr
+      exact Or.inl ⟨v, rfl, hs⟩
+  | some v, some w, c => by
+      intro r hr s hs
+      simp only [diffTO] at hr
+      split at hr
+      · cases hr
+      · split at hr
+        · split at hr
+          · simp only [Option.some.injEq] at hr
+            subst hr
+            rcases diffTV_intact (lv - 1) v w c s hs with h | h
+            · exact Or.inl ⟨v, rfl, h⟩
+            · exact Or.inr h
+          · cases hr
+        · simp only [Option.some.injEq] at hr
+          subst hr
+          exact Or.inl ⟨v, rfl, hs⟩
+theorem diffTL_intact (lv : Int) : ∀ (a : TSlots α) (b : Slots α) (c : Nat),
+    ∀ s ∈ subsL (diffTL truthy lv a b c).1, s ∈ subsL a ∨ IsNew c s
+  | [], _, c => by simp [diffTL, subsL]
+  | x :: r, [], c => by
+      have l1 := (diffTO_from truthy lv x none c).1
+      intro s hs
+      rw [diffTL, subsL_cons] at hs
+      rcases hs with ⟨v, hv, hs⟩ | hs
+      · rcases diffTO_intact lv x none c v hv s hs with h | h
+        · exact Or.inl ((subsL_cons x r s).2 (Or.inl h))
+        · exact Or.inr h
+      · rcases diffTL_intact lv r [] _ s hs with h | ⟨u, h1, h2⟩
+        · exact Or.inl ((subsL_cons x r s).2 (Or.inr h))
+        · exact Or.inr ⟨u, h1, by omega⟩
+  | x :: r, y :: r', c => by
+      have l1 := (diffTO_from truthy lv x y c).1
+      intro s hs
+      rw [diffTL, subsL_cons] at hs
+      rcases hs with ⟨v, hv, hs⟩ | hs
+      · rcases diffTO_intact lv x y c v hv s hs with h | h
+        · exact Or.inl ((subsL_cons x r s).2 (Or.inl h))
+        · exact Or.inr h
+      · rcases diffTL_intact lv r r' _ s hs with h | ⟨u, h1, h2⟩
+        · exact Or.inl ((subsL_cons x r s).2 (Or.inr h))
+        · exact Or.inr ⟨u, h1, by omega⟩
+end
+end diff
+
+/-! ### update_recursively: the objects of `other` that end up in `d` are untouched -/
+
+mutual
+theorem updTO_intact (t : Nat) : ∀ (x y : Option (TVal α)) (c : Nat),
+    ∀ r, (updTO t x y c).val = some r → ∀ s ∈ subsV r,
+      (∃ v, y = some v ∧ s ∈ subsV v) ∨ (∃ u, rootTok s = some u ∧ ((∃ v, x = some v ∧ u ∈ dictToksV v) ∨ c ≤ u))
+  | x, none, c => by
+      intro r hr s hs
+      simp only [updTO] at hr
+      subst hr
+      cases s with
+      | leaf ts a =>
+        exact absurd hs (subs_no_leafV r ts a)
+      | dict u l =>
+        exact Or.inr ⟨u, rfl, Or.inl ⟨r, rfl, subs_root_memV r u l hs⟩⟩
+  | x, some (.leaf ts a), c => by
+      intro r hr s hs
+      simp only [updTO, Option.some.injEq] at hr
+      subst hr
+      simp [subsV] at hs
+  | some (.dict u x), some (.dict w' y), c => by
+      intro r hr s hs
+      simp only [updTO, Option.some.injEq] at hr
+      subst hr
+      simp only [subsV, List.mem_cons] at hs
+      rcases hs with hs | hs
+      · exact Or.inr ⟨u, by rw [hs]; rfl, Or.inl ⟨_, rfl, by simp [dictToksV]⟩⟩
+      · rcases updTL_intact u x y c s hs with h | ⟨u', h1, h2 | h2⟩
+        · exact Or.inl ⟨_, rfl, by simp [subsV, h]⟩
+        · exact Or.inr ⟨u', h1, Or.inl ⟨_, rfl, by simp [dictToksV, h2]⟩⟩
+        · exact Or.inr ⟨u', h1, Or.inr h2⟩
+  | some (.leaf ts a), some (.dict w' y), c => by
+      intro r hr s hs
+      simp only [updTO, Option.some.injEq] at hr
+      subst hr
+      simp only [subsV, List.mem_cons] at hs
+      rcases hs with hs | hs
+      · exact Or.inr ⟨c, by rw [hs]; rfl, Or.inr (Nat.le_refl _)⟩
+      · rcases updTL_intact c (List.replicate y.length none) y (c + 1) s hs with h | ⟨u', h1, h2 | h2⟩
+        · exact Or.inl ⟨_, rfl, by simp [subsV, h]⟩
+        · exact absurd h2 (dictToksL_replicate_none _ _)
+        · exact Or.inr ⟨u', h1, Or.inr (by omega)⟩
+  | none, some (.dict w' y), c => by
+      intro r hr s hs
+      simp only [updTO, Option.some.injEq] at hr
+      subst hr
+      exact Or.inl ⟨_, rfl, hs⟩
+theorem updTL_intact (t : Nat) : ∀ (d o : TSlots α) (c : Nat),
+    ∀ s ∈ subsL (updTL t d o c).val,
+      s ∈ subsL o ∨ (∃ u, rootTok s = some u ∧ (u ∈ dictToksL d ∨ c ≤ u))
+  | d, [], c => by
+      intro s hs
+      simp only [updTL] at hs
+      cases s with
+      | leaf ts a => exact absurd hs (subs_no_leafL d ts a)
+      | dict u l => exact Or.inr ⟨u, rfl, Or.inl (subs_root_memL d u l hs)⟩
+  | [], y :: r', c => by
+      have l1 := (updTO_log t none y c).1
+      intro s hs
+      rw [updTL] at hs
+      simp only [] at hs
+      rw [subsL_cons] at hs
+      rcases hs with ⟨v, hv, hs⟩ | hs
+      · rcases updTO_intact t none y c v hv s hs with ⟨v', h1, h2⟩ | ⟨u, h1, ⟨_, h, _⟩ | h2⟩
+        · exact Or.inl ((subsL_cons y r' s).2 (Or.inl ⟨v', h1, h2⟩))
+        · cases h
+        · exact Or.inr ⟨u, h1, Or.inr h2⟩
+      · rcases updTL_intact t [] r' _ s hs with h | ⟨u, h1, h2 | h2⟩
+        · exact Or.inl ((subsL_cons y r' s).2 (Or.inr h))
+        · simp [dictToksL] at h2
+        · exact Or.inr ⟨u, h1, Or.inr (by omega)⟩
+  | x :: r, y :: r', c => by
+      have l1 := (updTO_log t x y c).1
+      intro s hs
+      rw [updTL] at hs
+      simp only [] at hs
+      rw [subsL_cons] at hs
+      rcases hs with ⟨v, hv, hs⟩ | hs
+      · rcases updTO_intact t x y c v hv s hs with ⟨v', h1, h2⟩ | ⟨u, h1, h | h2⟩
+        · exact Or.inl ((subsL_cons y r' s).2 (Or.inl ⟨v', h1, h2⟩))
+        · exact Or.inr ⟨u, h1, Or.inl ((dictToksL_cons x r u).2 (Or.inl h))⟩
+        · exact Or.inr ⟨u, h1, Or.inr h2⟩
+      · rcases updTL_intact t r r' _ s hs with h | ⟨u, h1, h2 | h2⟩
+        · exact Or.inl ((subsL_cons y r' s).2 (Or.inr h))
+        · exact Or.inr ⟨u, h1, Or.inl ((dictToksL_cons x r u).2 (Or.inr h2))⟩
+        · exact Or.inr ⟨u, h1, Or.inr (by omega)⟩
 end
 
 end Lena.C07
